@@ -1,9 +1,81 @@
 // Command c05 runs generated operation histories on the real pisces KV
 // backends of /repo (memory and sqlite, ordered and unordered) and prints
 // what every call returned, one JSON line per history.
+//
+// Usage-pattern audit (round 3). What the anchored code offers, and which
+// stream uses it how. "4 stores" = mem-ordered, mem-unordered, sqlite-ordered,
+// sqlite-unordered, each history on a fresh store of each kind; "multi" =
+// the multi-handle streams (multi / lifecycle / shared) over pisces.Tables.
+//
+//	API (pisces.KV)                       exercised by / shapes
+//	Add AddClass SetClass Remove Get      every stream; hit + miss + key too long; after every other writer
+//	GetBytes Has Emplace Replace            (typing: all ordered pairs of 13 writers, then 20 readers/writers)
+//	AppendBytes SetBytes Set                nil / empty / text / NUL+0xff+invalid UTF-8 bytes; 1 B .. 3 MiB (sizes, huge)
+//	Mutate                                ok | error | cancel | incr | changes its argument then fails | ... then
+//	                                        cancels | leaves an unmarshalable value | panics; on a missing key, on
+//	                                        an undecodable value; the store used again after each (callbacks + random)
+//	Count Clear                           every stream; handle reused after Clear
+//	Walk WalkClass WalkPartial            Do: succeeds | ErrCancel | user error | panic, at the first entry with a
+//	WalkPartialClass                        given value; windows 0,1,len-1,len,len+1,2^62,2^63-1 (window) and
+//	                                        >= 2^63 (overflow, models only); undecodable value midway (classvalue)
+//	Create CreateMissing Destroy          multi: per handle and through Tables; every method before Create and
+//	                                        after Destroy (must report an error), Create on an existing table,
+//	                                        CreateMissing on an existing table (must keep it), Destroy+Create
+//	NewMemKV NewOrderedMemKV              4 stores
+//	NewSqlite3KV NewOrderedSqlite3KV      4 stores (one table, dropped and created per history)
+//	Tables: OpenSqlite3Tables NewMemTables  multi: 0..4 handles, 1..4 tables (names with a common prefix) in one
+//	NewKV NewOrderedKV Create              file; Create/Destroy stopping at the first failure; no table at all
+//	CreateMissing Destroy DB               ("no table"); an ordered and a hashing handle on the same table, the
+//	                                        ordered one using the other's hashed key (shared)
+//	NewPsqlKV NewOrderedPsqlKV OpenPsqlTables  cannot run here (translator only: statement table equality)
+//	Sqlite3CreateKV Sqlite3DropExist      set-up of the 4 stores
+//	sqlx: OpenSqlite3, DB.X/Q1/Q, Tx.X/Q1,   through every call above; the failing paths (X, Q1+Scan, Q returning
+//	Begin, Row.Scan, Error                  an error) through every method on a table that does not exist (lifecycle)
+//
+//	user-supplied                         legal shapes -> used
+//	Mutate f(v) error                     nil / error / ErrCancel, each with v changed or not; v left
+//	                                        unmarshalable; panic -> all eight (Op.M)
+//	Iter.Make                             fresh pointer per entry (only shape used; a shared pointer is the
+//	                                        caller's business: json.Unmarshal semantics)
+//	Iter.Do                               nil / ErrCancel / error / panic at entry i (Op.Stop, Op.StopErr)
+//	re-entrant calls from f / Do          not exercised: self-deadlock on the memory backend by sync.RWMutex's
+//	                                        rules (Lock inside RLock / Lock), SQLITE_BUSY on sqlite; cross-goroutine
+//	                                        versions are the forced schedules of harness/cmd/c06
+//	[]byte arguments and results          the caller's memory: every argument is a sub-slice (spare capacity
+//	                                        behind it) of one scratch page that is overwritten as soon as the call
+//	                                        returns; every slice handed out (GetBytes, Get, the value shown to f
+//	                                        and Do) is overwritten once recorded; the page must stay untouched
+//	                                        between calls ("caller-memory-written")
+//	*KVPartial                            one object reused for every partial walk of the run, must come back
+//	                                        unchanged ("partial-modified")
+//
+//	state                                 lifetime -> exercised
+//	memKV.m, memEntry.buf                 per handle; growth across 64 B (bytes.Buffer's first allocation) and
+//	                                        its doublings by SetBytes / AppendBytes / incr carry (sizes)
+//	SQL table (k unique, c, v)            on disk per (file, table name); shared by all handles of that name;
+//	                                        value typed BLOB by a bound []byte, TEXT by the || of an append (typing)
+//	sqlx.DB pool                          one per file, reused by all handles and histories of the run; a
+//	                                        Mutate that fails / cancels / panics must leave no transaction behind
+//	                                        (later calls would hang or fail: per-call time limit, "hang")
+//	Tables.tables                         registration order = order of Create / Destroy (lifecycle)
+//
+//	thresholds in the code                cases on both sides
+//	MaxKeyLen 255 (bytes, not runes)      254/255/256/258/300 bytes, 2-,3-,4-byte runes (classvalue, corpus)
+//	MaxKVClassLen 255 (unused constant)   classes of 254/255/256/257/300/4096/65536 bytes (classvalue, sizes)
+//	sqlResError n==0 / n!=1               every update/delete on a present and on a missing key
+//	memEntry.bytes len==0 -> nil          empty values through SetBytes/AppendBytes(nil | empty)
+//	len(ts.tables)==0                     table set without tables
+//	uint64 window arithmetic              window, overflow
+//	bytes.Buffer 64, SQLite page 4096,    values of n-1, n, n+1 bytes for n in {64, 256, 4096, 65536}, 1 MiB +-1,
+//	64 KiB, 1 MiB                           3 MiB (sizes, huge)
+//
+//	Not exercised: PostgreSQL; concurrent use (harness/cmd/c06); keys with NUL or invalid UTF-8 (outside the
+//	statement); re-entrant calls from callbacks (see above).
 package main
 
 import (
+	"bytes"
+	"crypto/sha256"
 	"encoding/hex"
 	"encoding/json"
 	"errors"
@@ -11,7 +83,9 @@ import (
 	"fmt"
 	"os"
 	"path/filepath"
+	"strconv"
 	"strings"
+	"time"
 
 	_ "modernc.org/sqlite"
 	"shanhu.io/g/errcode"
@@ -28,9 +102,10 @@ type Op struct {
 	C       string  `json:"c,omitempty"`
 	V       string  `json:"v,omitempty"`
 	Nil     bool    `json:"nil,omitempty"`     // the []byte argument is nil
-	M       string  `json:"m,omitempty"`       // mutate callback: ok | error | cancel | incr
+	M       string  `json:"m,omitempty"`       // mutate callback: ok | error | cancel | incr | seterr | setcancel | bad | panic
 	Stop    *string `json:"stop,omitempty"`    // walks: Do stops at the first entry with this value (hex) ...
-	StopErr string  `json:"stoperr,omitempty"` // ... returning ErrCancel ("cancel") or a user error ("user")
+	StopErr string  `json:"stoperr,omitempty"` // ... returning ErrCancel ("cancel") or a user error ("user"), or panicking ("panic")
+	H       int     `json:"h,omitempty"`       // multi-handle histories: which handle
 	Off     uint64  `json:"off,omitempty"`
 	N       uint64  `json:"n,omitempty"`
 	Desc    bool    `json:"desc,omitempty"`
@@ -46,12 +121,20 @@ type Res struct {
 	Msg string      `json:"msg,omitempty"`
 }
 
+// Handle is one KV of a multi-handle history: table number and kind.
+type Handle struct {
+	T   int  `json:"t"`
+	Ord bool `json:"ord"`
+}
+
 type Case struct {
-	I      int               `json:"i"`
-	Stream string            `json:"stream"`
-	Ops    []Op              `json:"ops"`
-	HK     map[string]string `json:"hk"` // hex key -> hex of the hashed key (unordered stores)
-	Obs    map[string][]Res  `json:"obs"`
+	I       int               `json:"i"`
+	Stream  string            `json:"stream"`
+	Handles []Handle          `json:"handles,omitempty"` // multi-handle histories (Obs keys "m", "s")
+	Multi   bool              `json:"multi,omitempty"`
+	Ops     []Op              `json:"ops"`
+	HK      map[string]string `json:"hk"` // hex key -> hex of the hashed key (unordered stores)
+	Obs     map[string][]Res  `json:"obs"`
 	// Min is the delta-debugged history when memory and sqlite disagree.
 	Min    []Op             `json:"min,omitempty"`
 	MinObs map[string][]Res `json:"min_obs,omitempty"`
@@ -59,15 +142,55 @@ type Case struct {
 
 var errUser = errors.New("user callback failed")
 
+// userPanic is what a panicking user callback panics with; apply recovers it
+// and records "upanic" (a panic with any other value is pisces' own).
+type userPanic struct{}
+
+// opTimeout bounds one call: a call that does not return (a lock or a
+// transaction left behind by an earlier call) is the observation "hang".
+var opTimeout = 20 * time.Second
+var hangs int
+
+// unhex decodes a byte string of a case: hex, or (long values) pieces joined
+// by '+', each hex or "hh*n" = byte hh repeated n times.
 func unhex(s string) []byte {
-	b, err := hex.DecodeString(s)
-	if err != nil {
-		panic(err)
+	if !strings.ContainsAny(s, "*+") {
+		b, err := hex.DecodeString(s)
+		if err != nil {
+			panic(err)
+		}
+		return b
 	}
-	return b
+	var out []byte
+	for _, piece := range strings.Split(s, "+") {
+		if i := strings.IndexByte(piece, '*'); i >= 0 {
+			b, err := hex.DecodeString(piece[:i])
+			n, err2 := strconv.Atoi(piece[i+1:])
+			if err != nil || err2 != nil || len(b) != 1 {
+				panic("bad piece " + piece)
+			}
+			out = append(out, bytes.Repeat(b, n)...)
+			continue
+		}
+		b, err := hex.DecodeString(piece)
+		if err != nil {
+			panic(err)
+		}
+		out = append(out, b...)
+	}
+	return out
 }
 
-func hx2(b []byte) string { return hex.EncodeToString(b) }
+// hx2 prints a byte string: hex, or for very long ones "@<length>:<sha256>".
+func hx2(b []byte) string {
+	if len(b) > 20000 {
+		return fmt.Sprintf("@%d:%x", len(b), sha256.Sum256(b))
+	}
+	return hex.EncodeToString(b)
+}
+
+// rp is the piece "byte c repeated n times".
+func rp(c byte, n int) string { return fmt.Sprintf("%02x*%d", c, n) }
 
 func project(err error) (string, string) {
 	if err == nil {
@@ -123,15 +246,66 @@ func incr(bs []byte) ([]byte, bool) {
 	return append([]byte{'1'}, out...), true
 }
 
-func bytesArg(op *Op) []byte {
+// ---- the caller's memory ----
+//
+// Every []byte handed to the store is a sub-slice of one long-lived scratch
+// page of the caller (with the rest of the page as spare capacity), and the
+// whole page is overwritten as soon as the call has returned: the caller
+// recycles its buffer. Every []byte the store hands out (GetBytes, the value
+// a Mutate function or a walk receives) is overwritten by the caller once it
+// has been recorded. A store that keeps or gives away a reference instead of
+// a copy shows other contents afterwards, or writes into the page: both are
+// observed (the page is checked before every call and at the end).
+
+const scratchFill = 0xee
+
+type scratch struct {
+	page []byte
+	n    int
+}
+
+func (sc *scratch) fill() {
+	for i := range sc.page {
+		sc.page[i] = scratchFill
+	}
+}
+
+// clean reports whether nobody wrote into the page since the caller last
+// filled it.
+func (sc *scratch) clean() bool {
+	for _, c := range sc.page {
+		if c != scratchFill {
+			return false
+		}
+	}
+	return true
+}
+
+// arg places b in the page and returns that sub-slice (capacity: the rest of
+// the page).
+func (sc *scratch) arg(b []byte) []byte {
+	need := len(b) + 4096
+	if len(sc.page) < need {
+		sc.page = make([]byte, 2*need)
+		sc.fill()
+	}
+	sc.n++
+	off := (sc.n * 37) % 2048
+	copy(sc.page[off:], b)
+	return sc.page[off : off+len(b)]
+}
+
+func overwrite(b []byte) {
+	for i := range b {
+		b[i] = scratchFill
+	}
+}
+
+func bytesArg(op *Op, sc *scratch) []byte {
 	if op.Nil {
 		return nil
 	}
-	b := unhex(op.V)
-	if b == nil {
-		b = []byte{}
-	}
-	return b
+	return sc.arg(unhex(op.V))
 }
 
 func walkIter(op *Op, acc *[][2]string) *pisces.Iter {
@@ -139,9 +313,13 @@ func walkIter(op *Op, acc *[][2]string) *pisces.Iter {
 		Make: func() interface{} { return new(json.RawMessage) },
 		Do: func(cls string, v interface{}) error {
 			raw := v.(*json.RawMessage)
+			defer overwrite([]byte(*raw)) // the caller is done with what it was shown
 			if op.Stop != nil && hx2([]byte(*raw)) == *op.Stop {
 				if op.StopErr == "cancel" {
 					return pisces.ErrCancel
+				}
+				if op.StopErr == "panic" {
+					panic(userPanic{})
 				}
 				return errUser
 			}
@@ -151,20 +329,36 @@ func walkIter(op *Op, acc *[][2]string) *pisces.Iter {
 	}
 }
 
-func apply(kv *pisces.KV, op *Op) (res Res) {
+func apply(kv *pisces.KV, op *Op, sc *scratch) (res Res) {
+	if !sc.clean() {
+		sc.fill()
+		return Res{E: "caller-memory-written", Msg: "the store wrote into the buffer of an earlier call after that call had returned"}
+	}
+	defer sc.fill() // the caller recycles its buffer as soon as the call is over
 	defer func() {
 		if r := recover(); r != nil {
-			res = Res{E: "panic", Msg: fmt.Sprint(r)}
+			if _, mine := r.(userPanic); mine {
+				res = Res{E: "upanic", W: res.W} // a walk: what was visited before stays observed
+			} else {
+				res = Res{E: "panic", Msg: fmt.Sprint(r)}
+			}
 		}
 	}()
 	k := string(unhex(op.K))
 	c := string(unhex(op.C))
 	var err error
+	touched := false
 	switch op.Op {
+	case "create":
+		err = kv.Create()
+	case "createmissing":
+		err = kv.CreateMissing()
+	case "destroy":
+		err = kv.Destroy()
 	case "add":
-		err = kv.Add(k, json.RawMessage(unhex(op.V)))
+		err = kv.Add(k, json.RawMessage(sc.arg(unhex(op.V))))
 	case "addclass":
-		err = kv.AddClass(k, c, json.RawMessage(unhex(op.V)))
+		err = kv.AddClass(k, c, json.RawMessage(sc.arg(unhex(op.V))))
 	case "setclass":
 		err = kv.SetClass(k, c)
 	case "remove":
@@ -175,6 +369,7 @@ func apply(kv *pisces.KV, op *Op) (res Res) {
 		if err == nil {
 			s := hx2(raw)
 			res.B = &s
+			overwrite(raw)
 		}
 	case "getbytes":
 		var bs []byte
@@ -182,6 +377,7 @@ func apply(kv *pisces.KV, op *Op) (res Res) {
 		if err == nil {
 			s := hx2(bs)
 			res.B = &s
+			overwrite(bs) // the caller owns what it was given
 		}
 	case "has":
 		var h bool
@@ -190,22 +386,23 @@ func apply(kv *pisces.KV, op *Op) (res Res) {
 			res.Has = &h
 		}
 	case "emplace":
-		err = kv.Emplace(k, json.RawMessage(unhex(op.V)))
+		err = kv.Emplace(k, json.RawMessage(sc.arg(unhex(op.V))))
 	case "replace":
-		err = kv.Replace(k, json.RawMessage(unhex(op.V)))
+		err = kv.Replace(k, json.RawMessage(sc.arg(unhex(op.V))))
 	case "append":
-		err = kv.AppendBytes(k, bytesArg(op))
+		err = kv.AppendBytes(k, bytesArg(op, sc))
 	case "setbytes":
-		err = kv.SetBytes(k, bytesArg(op))
+		err = kv.SetBytes(k, bytesArg(op, sc))
 	case "set":
-		err = kv.Set(k, json.RawMessage(unhex(op.V)))
+		err = kv.Set(k, json.RawMessage(sc.arg(unhex(op.V))))
 	case "mutate":
 		var raw json.RawMessage
 		err = kv.Mutate(k, &raw, func(v interface{}) error {
 			p := v.(*json.RawMessage)
 			switch op.M {
 			case "ok":
-				*p = json.RawMessage(unhex(op.V))
+				overwrite([]byte(*p))
+				*p = json.RawMessage(sc.arg(unhex(op.V)))
 				return nil
 			case "incr":
 				nv, ok := incr([]byte(*p))
@@ -216,6 +413,19 @@ func apply(kv *pisces.KV, op *Op) (res Res) {
 				return nil
 			case "cancel":
 				return pisces.ErrCancel
+			case "seterr": // changes its argument, then fails
+				overwrite([]byte(*p))
+				*p = json.RawMessage(sc.arg(unhex(op.V)))
+				return errUser
+			case "setcancel": // changes its argument, then cancels
+				overwrite([]byte(*p))
+				*p = json.RawMessage(sc.arg(unhex(op.V)))
+				return pisces.ErrCancel
+			case "bad": // succeeds, leaving a value json.Marshal refuses
+				*p = json.RawMessage("{")
+				return nil
+			case "panic":
+				panic(userPanic{})
 			}
 			return errUser
 		})
@@ -235,22 +445,61 @@ func apply(kv *pisces.KV, op *Op) (res Res) {
 		err = kv.WalkClass(c, walkIter(op, &res.W))
 	case "walkpartial":
 		res.W = [][2]string{}
-		err = kv.WalkPartial(&pisces.KVPartial{Offset: op.Off, N: op.N, Desc: op.Desc}, walkIter(op, &res.W))
+		*sharedPartial = pisces.KVPartial{Offset: op.Off, N: op.N, Desc: op.Desc}
+		err = kv.WalkPartial(sharedPartial, walkIter(op, &res.W))
+		touched = *sharedPartial != pisces.KVPartial{Offset: op.Off, N: op.N, Desc: op.Desc}
 	case "walkpartialclass":
 		res.W = [][2]string{}
-		err = kv.WalkPartialClass(c, &pisces.KVPartial{Offset: op.Off, N: op.N, Desc: op.Desc}, walkIter(op, &res.W))
+		*sharedPartial = pisces.KVPartial{Offset: op.Off, N: op.N, Desc: op.Desc}
+		err = kv.WalkPartialClass(c, sharedPartial, walkIter(op, &res.W))
+		touched = *sharedPartial != pisces.KVPartial{Offset: op.Off, N: op.N, Desc: op.Desc}
 	default:
 		panic("unknown op " + op.Op)
 	}
 	res.E, res.Msg = project(err)
+	if touched {
+		res.E, res.Msg = "partial-modified", fmt.Sprintf("%+v", *sharedPartial)
+	}
 	return res
+}
+
+// sharedPartial is the one KVPartial every partial walk of the run is given
+// (a caller paging through a store keeps one and updates its fields): the
+// callee must leave it alone.
+var sharedPartial = new(pisces.KVPartial)
+
+// applyTimed is apply with a time limit. After a call that did not return
+// the store is not used any more (*dead): the later calls of the history are
+// recorded as "hang" too.
+func applyTimed(kv *pisces.KV, op *Op, sc *scratch, dead *bool) Res {
+	if *dead {
+		return Res{E: "hang"}
+	}
+	done := make(chan Res, 1)
+	go func() { done <- apply(kv, op, sc) }()
+	select {
+	case r := <-done:
+		return r
+	case <-time.After(opTimeout):
+		*dead = true
+		msg := "the call did not return within " + opTimeout.String()
+		// once a call has hung, the run is about reporting it, not about patience
+		hangs++
+		opTimeout = 2 * time.Second
+		if hangs > 5 {
+			opTimeout = 300 * time.Millisecond
+		}
+		return Res{E: "hang", Msg: msg}
+	}
 }
 
 // ---- stores ----
 
 type stores struct {
-	db  *sqlx.DB
-	dir string
+	db     *sqlx.DB
+	dir    string
+	gen    int
+	multiN int
 }
 
 func openStores() *stores {
@@ -299,8 +548,81 @@ func (s *stores) fresh(name string) *pisces.KV {
 func (s *stores) run(name string, ops []Op) []Res {
 	kv := s.fresh(name)
 	out := make([]Res, len(ops))
+	dead := false
+	sc := new(scratch)
 	for i := range ops {
-		out[i] = apply(kv, &ops[i])
+		out[i] = applyTimed(kv, &ops[i], sc, &dead)
+	}
+	if !dead && !sc.clean() && len(out) > 0 {
+		out[len(out)-1] = Res{E: "caller-memory-written", Msg: "the store wrote into the caller's buffer after the call had returned"}
+	}
+	if dead && name[0] == 's' {
+		// a connection may be stuck inside a transaction: new pool, new file
+		s.db.Close()
+		s.gen++
+		db, err := sqlx.OpenSqlite3(filepath.Join(s.dir, fmt.Sprintf("db%d", s.gen)))
+		if err != nil {
+			panic(err)
+		}
+		s.db = db
+	}
+	return out
+}
+
+// ---- several handles over tables (pisces.Tables) ----
+
+var tableNames = []string{"kv", "kv2", "kvkv", "t"}
+
+// runMulti runs a multi-handle history on a fresh table set: memory
+// (backend "m") or a new sqlite file (backend "s"). The handles are
+// registered first, in order; no table exists until the history creates it.
+func (s *stores) runMulti(backend string, hs []Handle, ops []Op) []Res {
+	var ts *pisces.Tables
+	if backend == "m" {
+		ts = pisces.NewMemTables()
+	} else {
+		s.multiN++
+		file := filepath.Join(s.dir, fmt.Sprintf("multi%d", s.multiN))
+		var err error
+		ts, err = pisces.OpenSqlite3Tables(file)
+		if err != nil {
+			panic(err)
+		}
+		defer os.Remove(file)
+		defer ts.DB().Close()
+	}
+	kvs := make([]*pisces.KV, len(hs))
+	for i, h := range hs {
+		if h.Ord {
+			kvs[i] = ts.NewOrderedKV(tableNames[h.T])
+		} else {
+			kvs[i] = ts.NewKV(tableNames[h.T])
+		}
+	}
+	out := make([]Res, len(ops))
+	dead := false
+	sc := new(scratch)
+	for i := range ops {
+		op := &ops[i]
+		var f func() error
+		switch op.Op {
+		case "tcreate":
+			f = ts.Create
+		case "tcreatemissing":
+			f = ts.CreateMissing
+		case "tdestroy":
+			f = ts.Destroy
+		}
+		if f != nil {
+			var r Res
+			r.E, r.Msg = project(f())
+			out[i] = r
+			continue
+		}
+		out[i] = applyTimed(kvs[op.H], op, sc, &dead)
+	}
+	if !dead && !sc.clean() && len(out) > 0 {
+		out[len(out)-1] = Res{E: "caller-memory-written", Msg: "the store wrote into the caller's buffer after the call had returned"}
 	}
 	return out
 }
@@ -406,7 +728,7 @@ func withStop(r *hx.Rng, o Op) Op {
 	if r.Intn(3) == 0 {
 		v := hx2([]byte(pick(r, jsonPool)))
 		o.Stop = &v
-		o.StopErr = []string{"cancel", "user"}[r.Intn(2)]
+		o.StopErr = []string{"cancel", "user", "cancel", "user", "panic"}[r.Intn(5)]
 	}
 	return o
 }
@@ -447,9 +769,9 @@ func genOp(r *hx.Rng) Op {
 	case 21:
 		return Op{Op: "set", K: k, V: v}
 	case 22, 23, 24:
-		m := []string{"ok", "ok", "error", "cancel", "incr"}[r.Intn(5)]
+		m := []string{"ok", "ok", "error", "cancel", "incr", "ok", "incr", "seterr", "setcancel", "bad", "panic"}[r.Intn(11)]
 		o := Op{Op: "mutate", K: k, M: m}
-		if m == "ok" {
+		if m == "ok" || m == "seterr" || m == "setcancel" {
 			o.V = v
 		}
 		return o
@@ -614,6 +936,277 @@ func classValueCorpus() [][]Op {
 	return out
 }
 
+// typingCorpus: every ordered pair of 13 writers on one key followed by every
+// reader and every other writer. (SQLite types the stored value by how it was
+// written: a []byte parameter is a BLOB, the || of an append is TEXT; a
+// statement that compares or converts v sees the difference.)
+func typingCorpus() [][]Op {
+	k := h("k")
+	writers := [][]Op{
+		{{Op: "add", K: k, V: h("1")}},
+		{{Op: "addclass", K: k, C: h("c"), V: h("1")}},
+		{{Op: "emplace", K: k, V: h("2")}},
+		{{Op: "replace", K: k, V: h("3")}},
+		{{Op: "append", K: k, V: h("4")}},
+		{{Op: "append", K: k, Nil: true}},
+		{{Op: "setbytes", K: k, V: h("5")}},
+		{{Op: "setbytes", K: k, Nil: true}},
+		{{Op: "set", K: k, V: h("6")}},
+		{{Op: "mutate", K: k, M: "ok", V: h("7")}},
+		{{Op: "mutate", K: k, M: "incr"}},
+		{{Op: "setclass", K: k, C: h("d")}},
+		{{Op: "remove", K: k}},
+	}
+	readers := []Op{{Op: "get", K: k}, {Op: "has", K: k}, {Op: "mutate", K: k, M: "incr"}, {Op: "getbytes", K: k},
+		{Op: "walk"}, {Op: "walkclass", C: h("c")}, {Op: "walkpartial", Off: 0, N: 5, Desc: true},
+		{Op: "walkpartialclass", C: h("d"), Off: 0, N: 5}, {Op: "count"}, {Op: "setbytes", K: k, V: h("9")},
+		{Op: "append", K: k, V: h("1")}, {Op: "mutate", K: k, M: "ok", V: h("8")}, {Op: "emplace", K: k, V: h("0")},
+		{Op: "replace", K: k, V: h("11")}, {Op: "set", K: k, V: h("12")}, {Op: "get", K: k},
+		{Op: "setclass", K: k, C: h("c")}, {Op: "walkclass", C: h("c")}, {Op: "remove", K: k}, {Op: "has", K: k}}
+	var out [][]Op
+	for _, w1 := range writers {
+		for _, w2 := range writers {
+			ops := append(append(append([]Op{}, w1...), w2...), readers...)
+			out = append(out, ops)
+		}
+	}
+	return out
+}
+
+func jstring(n int) string { return "22+" + rp('a', n-2) + "+22" } // a JSON string of n bytes
+
+// sizesCorpus: values and classes on both sides of the sizes at which the
+// storage below changes its behaviour: bytes.Buffer's first allocation (64)
+// and its doubling, the 255 of the key/class limits, SQLite's page (4096:
+// larger values go to overflow pages), 64 KiB; a counter whose increment
+// grows it across the size; appends that grow a value across it.
+func sizesCorpus() [][]Op {
+	k, k2, k3 := h("s"), h("s2"), h("s3")
+	var out [][]Op
+	for _, n := range []int{63, 64, 65, 255, 256, 257, 4095, 4096, 4097, 65535, 65536, 65537} {
+		nines := rp('9', n-1)
+		out = append(out, []Op{
+			{Op: "add", K: k, V: jstring(n)}, {Op: "get", K: k}, {Op: "getbytes", K: k},
+			{Op: "setbytes", K: k, V: nines}, {Op: "mutate", K: k, M: "incr"}, {Op: "getbytes", K: k},
+			{Op: "append", K: k, V: h("7")}, {Op: "get", K: k},
+			{Op: "addclass", K: k2, C: rp('c', n), V: h("1")}, {Op: "walkclass", C: rp('c', n)},
+			{Op: "walkclass", C: rp('c', n-1)},
+			{Op: "replace", K: k, V: jstring(n + 1)}, {Op: "get", K: k}, {Op: "emplace", K: k3, V: jstring(n - 1)},
+			{Op: "walk"}, {Op: "mutate", K: k3, M: "ok", V: jstring(n)}, {Op: "walkpartial", Off: 1, N: 2, Desc: true},
+			{Op: "setbytes", K: k, V: h("1")}, {Op: "get", K: k}, {Op: "set", K: k3, V: h("2")}, {Op: "walk"},
+		})
+	}
+	// a value grown by appends across 64, 4096 and 64 KiB
+	grow := []Op{}
+	for i := 0; i < 66; i++ {
+		grow = append(grow, Op{Op: "append", K: k, V: rp('1', 1000)})
+		if i == 0 || i == 3 || i == 4 || i == 64 || i == 65 {
+			grow = append(grow, Op{Op: "getbytes", K: k}, Op{Op: "get", K: k})
+		}
+	}
+	grow = append(grow, Op{Op: "mutate", K: k, M: "incr"}, Op{Op: "getbytes", K: k}, Op{Op: "setbytes", K: k, V: h("3")}, Op{Op: "get", K: k})
+	out = append(out, grow)
+	// bytes that are not text: NUL, 0xff, invalid UTF-8, through SetBytes / AppendBytes
+	bin := hx2([]byte{0, 0xff, 'x', 0, 0xc3, 0x28, 'y'})
+	out = append(out, []Op{{Op: "append", K: k, V: bin}, {Op: "getbytes", K: k}, {Op: "append", K: k, V: bin}, {Op: "getbytes", K: k},
+		{Op: "add", K: k2, V: h("1")}, {Op: "append", K: k2, V: bin}, {Op: "getbytes", K: k2}, {Op: "get", K: k2},
+		{Op: "setbytes", K: k2, V: bin}, {Op: "getbytes", K: k2}, {Op: "mutate", K: k2, M: "ok", V: h("2")}, {Op: "walk"},
+		{Op: "setbytes", K: k2, V: hx2([]byte{0})}, {Op: "getbytes", K: k2}, {Op: "append", K: k2, V: hx2([]byte{0})}, {Op: "getbytes", K: k2},
+		{Op: "count"}})
+	return out
+}
+
+// hugeCorpus: values of 1 MiB and more (checked against the reference map
+// only; too long for the evaluation inside Coq).
+func hugeCorpus() [][]Op {
+	k := h("s")
+	var out [][]Op
+	for _, n := range []int{1<<20 - 1, 1 << 20, 1<<20 + 1, 3 << 20} {
+		out = append(out, []Op{{Op: "add", K: k, V: jstring(n)}, {Op: "get", K: k},
+			{Op: "setbytes", K: k, V: rp('9', n)}, {Op: "mutate", K: k, M: "incr"}, {Op: "getbytes", K: k},
+			{Op: "append", K: k, V: rp('0', n)}, {Op: "getbytes", K: k}, {Op: "walk"}, {Op: "count"}})
+	}
+	return out
+}
+
+// callbackCorpus: the shapes a user callback can take beyond "succeed" and
+// "fail": change the argument and then fail or cancel; leave a value that
+// cannot be marshalled; panic (in Mutate, in a walk) - and the store used
+// again afterwards; callers that go on using the slices they passed in or
+// were given.
+func callbackCorpus() [][]Op {
+	k, k2 := h("k"), h("k2")
+	var out [][]Op
+	for _, m := range []string{"seterr", "setcancel", "bad", "panic", "error", "cancel"} {
+		out = append(out, []Op{{Op: "add", K: k, V: h("5")}, {Op: "mutate", K: k, M: m, V: h("6")}, {Op: "get", K: k},
+			{Op: "mutate", K: k, M: "incr"}, {Op: "get", K: k}, {Op: "add", K: k2, V: h("1")}, {Op: "mutate", K: k2, M: m, V: h("2")},
+			{Op: "walk"}, {Op: "mutate", K: k2, M: "ok", V: h("3")}, {Op: "replace", K: k, V: h("9")}, {Op: "walk"}, {Op: "count"},
+			{Op: "mutate", K: h("missing"), M: m, V: h("1")}, {Op: "append", K: k, V: h("x")}, {Op: "mutate", K: k, M: m, V: h("1")},
+			{Op: "getbytes", K: k}})
+	}
+	for _, e := range []string{"panic", "user", "cancel"} {
+		out = append(out, []Op{{Op: "add", K: h("a"), V: h("1")}, {Op: "add", K: h("b"), V: h("7")}, {Op: "addclass", K: h("c"), C: h("c"), V: h("3")},
+			{Op: "walk", Stop: strp(h("7")), StopErr: e}, {Op: "set", K: h("a"), V: h("2")}, {Op: "walk"},
+			{Op: "walkclass", C: h("c"), Stop: strp(h("3")), StopErr: e}, {Op: "remove", K: h("b")},
+			{Op: "walkpartial", Off: 0, N: 9, Desc: true, Stop: strp(h("2")), StopErr: e}, {Op: "mutate", K: h("a"), M: "incr"},
+			{Op: "walkpartialclass", C: h(""), Off: 0, N: 9, Stop: strp(h("3")), StopErr: e}, {Op: "walk"}, {Op: "count"},
+			{Op: "walk", Stop: strp(h("3")), StopErr: e}, {Op: "clear"}, {Op: "walk", Stop: strp(h("3")), StopErr: e}, {Op: "count"}})
+	}
+	out = append(out, []Op{{Op: "add", K: k, V: h("12345")}, {Op: "getbytes", K: k}, {Op: "getbytes", K: k}, {Op: "get", K: k},
+		{Op: "setbytes", K: k, V: h("678")}, {Op: "getbytes", K: k}, {Op: "getbytes", K: k},
+		{Op: "append", K: k, V: h("90")}, {Op: "getbytes", K: k}, {Op: "getbytes", K: k},
+		{Op: "append", K: k2, V: h("11")}, {Op: "getbytes", K: k2}, {Op: "append", K: k2, V: h("22")},
+		{Op: "getbytes", K: k2}, {Op: "getbytes", K: k2}, {Op: "walk"}, {Op: "mutate", K: k2, M: "incr"}, {Op: "getbytes", K: k2},
+		{Op: "getbytes", K: k2}})
+	return out
+}
+
+// ---- multi-handle histories ----
+
+type multiCase struct {
+	stream string
+	hs     []Handle
+	ops    []Op
+}
+
+func on(hh int, o Op) Op { o.H = hh; return o }
+
+func keyOps(hh int, key string) []Op {
+	k := h(key)
+	return []Op{on(hh, Op{Op: "add", K: k, V: h("1")}), on(hh, Op{Op: "has", K: k}), on(hh, Op{Op: "get", K: k}),
+		on(hh, Op{Op: "getbytes", K: k}), on(hh, Op{Op: "setclass", K: k, C: h("c")}), on(hh, Op{Op: "remove", K: k}),
+		on(hh, Op{Op: "emplace", K: k, V: h("2")}), on(hh, Op{Op: "replace", K: k, V: h("3")}), on(hh, Op{Op: "append", K: k, V: h("4")}),
+		on(hh, Op{Op: "setbytes", K: k, V: h("5")}), on(hh, Op{Op: "set", K: k, V: h("6")}), on(hh, Op{Op: "mutate", K: k, M: "incr"}),
+		on(hh, Op{Op: "mutate", K: k, M: "cancel"}), on(hh, Op{Op: "count"}), on(hh, Op{Op: "walk"}), on(hh, Op{Op: "walkclass", C: h("c")}),
+		on(hh, Op{Op: "walkpartial", Off: 0, N: 3}), on(hh, Op{Op: "walkpartialclass", C: h("c"), Off: 0, N: 3, Desc: true}),
+		on(hh, Op{Op: "clear"}), on(hh, Op{Op: "add", K: h(strings.Repeat("a", 256)), V: h("1")})}
+}
+
+// multiCorpus: fixed histories over several handles of one table set:
+// isolation between tables of one file, every method on a table that does
+// not exist (before Create, after Destroy), CreateMissing on an existing
+// table, Tables.Create / Destroy stopping at the first failure, an ordered
+// and a hashing handle on the same table.
+func multiCorpus() []multiCase {
+	k := h("k")
+	hashK := h(hashutil.HashStr("k"))
+	two := []Handle{{T: 0, Ord: true}, {T: 1, Ord: true}}
+	three := []Handle{{T: 0, Ord: true}, {T: 1, Ord: false}, {T: 2, Ord: true}}
+	var out []multiCase
+	// isolation: the same key in two tables, every writer on one, readers on the other
+	out = append(out, multiCase{"multi", two, []Op{{Op: "tcreate"}, on(0, Op{Op: "add", K: k, V: h("1")}), on(1, Op{Op: "add", K: k, V: h("2")}),
+		on(0, Op{Op: "append", K: k, V: h("5")}), on(1, Op{Op: "get", K: k}), on(0, Op{Op: "get", K: k}), on(0, Op{Op: "replace", K: k, V: h("7")}),
+		on(1, Op{Op: "mutate", K: k, M: "incr"}), on(0, Op{Op: "get", K: k}), on(1, Op{Op: "get", K: k}), on(0, Op{Op: "setclass", K: k, C: h("c")}),
+		on(1, Op{Op: "walkclass", C: h("c")}), on(0, Op{Op: "walkclass", C: h("c")}), on(0, Op{Op: "clear"}), on(1, Op{Op: "count"}),
+		on(1, Op{Op: "walk"}), on(0, Op{Op: "count"}), on(0, Op{Op: "emplace", K: k, V: h("8")}), on(1, Op{Op: "remove", K: k}),
+		on(0, Op{Op: "get", K: k}), on(1, Op{Op: "has", K: k}), on(0, Op{Op: "append", K: h("n"), V: h("1")}), on(1, Op{Op: "has", K: h("n")}),
+		on(1, Op{Op: "count"}), on(0, Op{Op: "walkpartial", Off: 0, N: 9, Desc: true})}})
+	// every method before the tables exist, then after Tables.Create
+	ops := append([]Op{}, keyOps(0, "k")...)
+	ops = append(ops, Op{Op: "tcreate"})
+	ops = append(ops, keyOps(0, "k")...)
+	out = append(out, multiCase{"lifecycle", two, ops})
+	// ... on the hashing kind too
+	ops = append([]Op{}, keyOps(1, "k")...)
+	ops = append(ops, Op{Op: "tcreatemissing"})
+	ops = append(ops, keyOps(1, "k")...)
+	out = append(out, multiCase{"lifecycle", three, ops})
+	// Destroy one table: its handle reports errors, the other goes on; Create it again: empty
+	ops = []Op{{Op: "tcreate"}, on(0, Op{Op: "add", K: k, V: h("1")}), on(1, Op{Op: "add", K: k, V: h("2")}), on(0, Op{Op: "destroy"})}
+	ops = append(ops, keyOps(0, "k")...)
+	ops = append(ops, on(1, Op{Op: "get", K: k}), on(1, Op{Op: "count"}), on(0, Op{Op: "destroy"}), on(0, Op{Op: "create"}), on(0, Op{Op: "count"}),
+		on(0, Op{Op: "get", K: k}), on(0, Op{Op: "add", K: k, V: h("3")}), on(0, Op{Op: "create"}), on(0, Op{Op: "get", K: k}),
+		on(1, Op{Op: "get", K: k}))
+	out = append(out, multiCase{"lifecycle", two, ops})
+	// CreateMissing keeps what is there (handle and table set), Create on an existing table fails and keeps it
+	out = append(out, multiCase{"lifecycle", two, []Op{on(0, Op{Op: "createmissing"}), on(0, Op{Op: "add", K: k, V: h("1")}), on(0, Op{Op: "createmissing"}),
+		on(0, Op{Op: "get", K: k}), {Op: "tcreatemissing"}, on(0, Op{Op: "get", K: k}), on(1, Op{Op: "count"}), on(1, Op{Op: "add", K: k, V: h("2")}),
+		{Op: "tcreatemissing"}, on(1, Op{Op: "get", K: k}), on(0, Op{Op: "create"}), on(0, Op{Op: "get", K: k}), {Op: "tcreate"},
+		on(0, Op{Op: "get", K: k}), on(1, Op{Op: "get", K: k}), on(0, Op{Op: "count"})}})
+	// Tables.Create stops at the first table that exists; Tables.Destroy at the first that does not
+	out = append(out, multiCase{"lifecycle", three, []Op{on(1, Op{Op: "createmissing"}), {Op: "tcreate"}, on(0, Op{Op: "count"}), on(1, Op{Op: "count"}),
+		on(2, Op{Op: "count"}), on(2, Op{Op: "create"}), on(2, Op{Op: "add", K: k, V: h("1")}), on(1, Op{Op: "destroy"}), {Op: "tdestroy"},
+		on(0, Op{Op: "count"}), on(1, Op{Op: "count"}), on(2, Op{Op: "get", K: k}), {Op: "tcreatemissing"}, on(0, Op{Op: "count"}),
+		on(1, Op{Op: "count"}), on(2, Op{Op: "get", K: k}), {Op: "tdestroy"}, on(2, Op{Op: "get", K: k}), {Op: "tdestroy"}}})
+	// a table set without tables
+	out = append(out, multiCase{"lifecycle", nil, []Op{{Op: "tcreate"}, {Op: "tcreatemissing"}, {Op: "tdestroy"}}})
+	// an ordered and a hashing handle on one table; the ordered one uses the other's hashed key
+	shared := []Handle{{T: 0, Ord: true}, {T: 0, Ord: false}, {T: 1, Ord: true}}
+	out = append(out, multiCase{"shared", shared, []Op{on(0, Op{Op: "createmissing"}), on(2, Op{Op: "createmissing"}), on(1, Op{Op: "add", K: k, V: h("1")}),
+		on(0, Op{Op: "count"}), on(0, Op{Op: "get", K: hashK}), on(0, Op{Op: "get", K: k}), on(0, Op{Op: "add", K: k, V: h("2")}), on(1, Op{Op: "count"}),
+		on(1, Op{Op: "walk"}), on(0, Op{Op: "walk"}), on(0, Op{Op: "walkpartial", Off: 0, N: 5, Desc: true}), on(1, Op{Op: "walkpartial", Off: 0, N: 5}),
+		on(0, Op{Op: "append", K: hashK, V: h("3")}), on(1, Op{Op: "get", K: k}), on(0, Op{Op: "setclass", K: hashK, C: h("c")}),
+		on(1, Op{Op: "walkclass", C: h("c")}), on(1, Op{Op: "remove", K: k}), on(0, Op{Op: "has", K: hashK}), on(0, Op{Op: "count"}),
+		on(1, Op{Op: "clear"}), on(0, Op{Op: "count"}), on(2, Op{Op: "count"}), on(0, Op{Op: "destroy"}), on(1, Op{Op: "count"}),
+		on(1, Op{Op: "createmissing"}), on(0, Op{Op: "count"}), {Op: "tcreate"}, {Op: "tcreatemissing"}, {Op: "tdestroy"}, {Op: "tdestroy"}}})
+	return out
+}
+
+var multiKeys = []string{"a", "ab", "b", "k", "", hashutil.HashStr("a"), hashutil.HashStr("k"), strings.Repeat("a", 256)}
+
+func genMulti(r *hx.Rng, maxLen int) multiCase {
+	stream := "multi"
+	nh := 2 + r.Intn(3)
+	hs := make([]Handle, nh)
+	shared := r.Intn(3) == 0
+	if shared {
+		stream = "shared"
+	}
+	for i := range hs {
+		t := i
+		if shared {
+			t = r.Intn(2)
+		} else if t > 3 {
+			t = 3
+		}
+		hs[i] = Handle{T: t % len(tableNames), Ord: r.Intn(3) != 0}
+	}
+	n := 5 + r.Intn(maxLen)
+	ops := make([]Op, 0, n+1)
+	switch r.Intn(6) {
+	case 0: // tables never created at the start
+	case 1:
+		ops = append(ops, Op{Op: "tcreatemissing"})
+	default:
+		ops = append(ops, Op{Op: "tcreate"})
+	}
+	life := false
+	for len(ops) < n {
+		hh := r.Intn(nh)
+		switch r.Intn(40) {
+		case 0:
+			ops = append(ops, on(hh, Op{Op: "createmissing"}))
+		case 1:
+			ops = append(ops, Op{Op: "tcreatemissing"})
+		case 2:
+			if r.Intn(2) == 0 {
+				ops = append(ops, on(hh, Op{Op: "destroy"}))
+				life = true
+			}
+		case 3:
+			if r.Intn(2) == 0 {
+				ops = append(ops, on(hh, Op{Op: "create"}))
+				life = true
+			}
+		case 4:
+			if r.Intn(6) == 0 {
+				ops = append(ops, Op{Op: []string{"tcreate", "tdestroy"}[r.Intn(2)]})
+				life = true
+			}
+		default:
+			o := genOp(r)
+			if r.Intn(4) != 0 && o.K != "" {
+				o.K = hx2([]byte(multiKeys[r.Intn(len(multiKeys))]))
+			}
+			ops = append(ops, on(hh, o))
+		}
+	}
+	if life && stream == "multi" {
+		stream = "lifecycle"
+	}
+	return multiCase{stream, hs, ops}
+}
+
 func genHistory(r *hx.Rng, maxLen int) []Op {
 	n := 1 + r.Intn(maxLen)
 	ops := make([]Op, n)
@@ -651,7 +1244,8 @@ func hashTable(ops []Op) map[string]string {
 	m := map[string]string{}
 	for _, op := range ops {
 		switch op.Op {
-		case "count", "clear", "walk", "walkclass", "walkpartial", "walkpartialclass":
+		case "count", "clear", "walk", "walkclass", "walkpartial", "walkpartialclass",
+			"create", "createmissing", "destroy", "tcreate", "tcreatemissing", "tdestroy":
 			continue
 		}
 		if _, ok := m[op.K]; !ok {
@@ -665,6 +1259,7 @@ func main() {
 	seed := flag.Uint64("seed", 1, "seed")
 	n := flag.Int("n", 400, "number of generated histories")
 	maxLen := flag.Int("maxlen", 60, "maximum history length")
+	nmulti := flag.Int("multi", 60, "number of generated multi-handle histories")
 	flag.Parse()
 	r := hx.NewRng(*seed)
 	out := hx.NewOut(os.Stdout)
@@ -674,7 +1269,7 @@ func main() {
 	i := 0
 	emit := func(stream string, ops []Op) {
 		c := Case{I: i, Stream: stream, Ops: ops, HK: hashTable(ops), Obs: st.runAll(ops)}
-		if stream != "overflow" && (!sameRes(c.Obs["mo"], c.Obs["so"]) || !sameRes(c.Obs["mu"], c.Obs["su"])) {
+		if stream != "overflow" && hangs == 0 && (!sameRes(c.Obs["mo"], c.Obs["so"]) || !sameRes(c.Obs["mu"], c.Obs["su"])) {
 			c.Min = st.shrink(ops)
 			c.MinObs = st.runAll(c.Min)
 		}
@@ -692,6 +1287,33 @@ func main() {
 	}
 	for _, ops := range overflowCorpus() {
 		emit("overflow", ops)
+	}
+	for _, ops := range callbackCorpus() {
+		emit("callbacks", ops)
+	}
+	for _, ops := range typingCorpus() {
+		emit("typing", ops)
+	}
+	for _, ops := range sizesCorpus() {
+		emit("sizes", ops)
+	}
+	for _, ops := range hugeCorpus() {
+		emit("huge", ops)
+	}
+	emitMulti := func(mc multiCase) {
+		c := Case{I: i, Stream: mc.stream, Multi: true, Handles: mc.hs, Ops: mc.ops, HK: hashTable(mc.ops),
+			Obs: map[string][]Res{"m": st.runMulti("m", mc.hs, mc.ops), "s": st.runMulti("s", mc.hs, mc.ops)}}
+		if c.Handles == nil {
+			c.Handles = []Handle{}
+		}
+		out.Emit(c)
+		i++
+	}
+	for _, mc := range multiCorpus() {
+		emitMulti(mc)
+	}
+	for j := 0; j < *nmulti; j++ {
+		emitMulti(genMulti(r, *maxLen))
 	}
 	for j := 0; j < *n; j++ {
 		if j%8 == 7 {
